@@ -167,6 +167,9 @@ type c12Case struct {
 	StepIx int        `json:"step"`
 	L      int        `json:"L"`
 	Note   string     `json:"note"`
+	// Deep > 0: zero words are pushed right before the operands so that, with the operands on top, the stack holds
+	// 1024 - (Deep-1) items (the instruction executes at the stack limit)
+	Deep int `json:"deep,omitempty"`
 }
 
 func c12Trace(cs *world.Case) (*world.ARec, *world.Obs) {
@@ -278,8 +281,17 @@ func c12Run(c *c12Case) (sig, detail string) {
 	if c.Static {
 		entry = "staticcall"
 	}
+	var filler []byte
+	if c.Deep > 0 {
+		// stack height at the insertion point of an empty base sequence: 3*L seeds + 3 (see gen.BuildSeqIns)
+		n := 1024 - (3*c.L + 3) - len(st.Step.Operands) - (c.Deep - 1)
+		for i := 0; i < n; i++ {
+			filler = append(filler, 0x60, 0x00)
+		}
+	}
 	mk := func(ins []byte) (*world.Case, int) {
-		code, insPC := gen.BuildSeqIns(c.Fork, alpha, c.Seq, c.L, prefix, c.At, ins)
+		code, insPC := gen.BuildSeqIns(c.Fork, alpha, c.Seq, c.L, prefix, c.At, append(append([]byte{}, filler...), ins...))
+		insPC += len(filler)
 		cs := gen.StdCase(c.Fork, code, entry, 300000)
 		cs.Accounts[1].Storage = c12Storage()
 		return cs, insPC
@@ -419,7 +431,7 @@ func init() {
 		ID:        "C12",
 		Level:     "model_checking",
 		Technique: "bounded exhaustive enumeration of base programs x insertion position x journal instruction/operand set x fork x static flag; each program is executed on the real interpreter next to its pop-variant and the complete debug-tracer streams (stack, memory, pc, return data, refund, gas offsets) are compared event by event",
-		Rule:      "base programs = all sequences of length <= L over the 28-macro interacting alphabet (SEQ without GAS) behind a registration block; one journal instruction (25 well-formed operand sets over the 8 opcodes incl. hashed slots and a key that ends exactly at the end of memory, 20 malformed operand sets covering each malformed class) inserted at every position; all 13 fork configurations; normal and static entry. P' = same program with the instruction replaced by one POP per operand (P is padded with 1-gas JUMPDESTs to the same layout). Well-formed: every event after the instruction equal (gas shifted by the constant fee-n-1 at depth 1, equal in callees), results, logs, state delta, refund equal; fee equal to the canonical fee and non-zero everywhere. Malformed: frame halts at the instruction, all gas consumed, no effects. non-trivial = distinct cases in which the journal instruction was reached",
+		Rule:      "base programs = all sequences of length <= L over the 28-macro interacting alphabet (SEQ without GAS) behind a registration block; one journal instruction (25 well-formed operand sets over the 8 opcodes incl. hashed slots and a key that ends exactly at the end of memory, 20 malformed operand sets covering each malformed class) inserted at every position, and into the empty program with the stack filled to the limit (1024 and 1023 items with the operands on top); all 13 fork configurations; normal and static entry. P' = same program with the instruction replaced by one POP per operand (P is padded with 1-gas JUMPDESTs to the same layout). Well-formed: every event after the instruction equal (gas shifted by the constant fee-n-1 at depth 1, equal in callees), results, logs, state delta, refund equal; fee equal to the canonical fee and non-zero everywhere. Malformed: frame halts at the instruction, all gas consumed, no effects. non-trivial = distinct cases in which the journal instruction was reached",
 		Assumptions: []string{
 			"base programs longer than L and operand values outside the listed sets are not covered",
 			"GAS is excluded from the base alphabet because it legitimately observes the fee",
@@ -462,34 +474,43 @@ func init() {
 									if static && !w.Thorough() && (len(seq)+six)%3 != 0 {
 										continue // quick: a third of the static variants
 									}
-									c := &c12Case{Fork: f, Static: static, Seq: append([]int{}, seq...), At: at, StepIx: six, L: L}
-									c.Note = fmt.Sprintf("%s static=%v seq=[%s] at=%d step=%q", f, static, seqName(alpha, seq), at, steps[six].Name)
-									sig, detail := c12Run(c)
-									w.Evals++
-									w.Transitions++
-									h := fw.Hash(c.Note)
-									w.State(h)
-									if detail == "unreached" {
-										w.Skipped++
-									} else {
-										w.Nontrivial(h)
+									deeps := []int{0}
+									if len(seq) == 0 && !static {
+										deeps = []int{0, 1, 2} // also at the stack limit and one below it
 									}
-									if w.Evals%50021 == 1 {
-										w.Sample(c)
-									}
-									if sig == "harness" {
-										w.Notes = append(w.Notes, "HARNESS ERROR: C12 "+detail+" :: "+c.Note)
-										ok = false
-										return
-									}
-									if sig != "" {
-										for i := 0; i < 4; i++ {
-											if s2, _ := c12Run(c); s2 != sig {
-												w.Notes = append(w.Notes, "UNREPRODUCED: C12 violation did not reproduce: "+c.Note)
-												return
-											}
+									for _, deep := range deeps {
+										c := &c12Case{Fork: f, Static: static, Seq: append([]int{}, seq...), At: at, StepIx: six, L: L, Deep: deep}
+										c.Note = fmt.Sprintf("%s static=%v seq=[%s] at=%d step=%q", f, static, seqName(alpha, seq), at, steps[six].Name)
+										if deep > 0 {
+											c.Note += fmt.Sprintf(" stack height %d", 1024-(deep-1))
 										}
-										w.Violate(sig, detail+"\n"+c.Note, c)
+										sig, detail := c12Run(c)
+										w.Evals++
+										w.Transitions++
+										h := fw.Hash(c.Note)
+										w.State(h)
+										if detail == "unreached" {
+											w.Skipped++
+										} else {
+											w.Nontrivial(h)
+										}
+										if w.Evals%50021 == 1 {
+											w.Sample(c)
+										}
+										if sig == "harness" {
+											w.Notes = append(w.Notes, "HARNESS ERROR: C12 "+detail+" :: "+c.Note)
+											ok = false
+											return
+										}
+										if sig != "" {
+											for i := 0; i < 4; i++ {
+												if s2, _ := c12Run(c); s2 != sig {
+													w.Notes = append(w.Notes, "UNREPRODUCED: C12 violation did not reproduce: "+c.Note)
+													return
+												}
+											}
+											w.Violate(sig, detail+"\n"+c.Note, c)
+										}
 									}
 								}
 							}
